@@ -45,6 +45,9 @@ func newC02Fixture() *c02Fixture {
 	for i := 0; i < 3; i++ {
 		fx.ws[i] = wd{Bridge: 1, Seq: uint64(i + 1), From: "l2user", To: bob, Denom: "uxx", Amount: uint64(i + 1)}
 	}
+	// the third withdrawal takes most of what the escrow holds (12): once it is paid the second one cannot be
+	// paid any more (and the other way round) — a claim the escrow cannot pay must fail without a trace
+	fx.ws[2].Amount = 11
 	fx.trees["R12"] = mkTree("R12", fx.ws[:2], 0)
 	fx.trees["R123"] = mkTree("R123", fx.ws[:3], 0)
 	fx.bad = ref.Sum256([]byte("bad root"))
@@ -192,6 +195,9 @@ func (c02Sys) Step(s *c02State, l engine.Letter) (*c02State, string, *engine.Vio
 			if !valid {
 				return c, "accepted", viol("finalize-needs-final-output-with-matching-root", "%s finalized against idx %d (outs=%v now=%s)", wdr, d.idx, s.outs, ctx.BlockTime())
 			}
+			if esc := balanceOf(s.w, s.ctx, sdk.AccAddress(ref.BridgeAddress(1)), "uxx"); esc < int64(wdr.Amount) {
+				return c, "accepted", viol("claimed-query-iff-paid", "%s finalized (and recorded as claimed) although the escrow holds only %d: nothing was paid", wdr, esc)
+			}
 			if got := balanceOf(s.w, ctx, world.Addr("bob"), "uxx") - bobBefore; got != int64(wdr.Amount) {
 				return c, "accepted", viol("finalize-pays-exactly-the-amount", "recipient received %d, expected %d", got, wdr.Amount)
 			}
@@ -223,6 +229,9 @@ func (c02Sys) Step(s *c02State, l engine.Letter) (*c02State, string, *engine.Vio
 			return c, "rejected-other-spelling", nil
 		}
 		if valid && !s.paid[d.w] {
+			if balanceOf(s.w, ctx, sdk.AccAddress(ref.BridgeAddress(1)), "uxx") < int64(wdr.Amount) {
+				return c, "rejected-escrow-cannot-pay", nil
+			}
 			return c, "rejected-though-valid", nil
 		}
 		if s.paid[d.w] && valid {
